@@ -180,7 +180,13 @@ def add_poll_events(res):
     """derive one 'wfr-poll' event per look at the queue by wait_for_response, with the popped datagram id if any"""
     tr = res["trace"]
     out = []
-    evs = tr.ev
+    evs = []
+    for e in tr.ev:
+        # the unpacking read `data, sender = queue.head` immediately follows the test read of the same look (same ms, something at the head,
+        # later bytecode offset): keep the test read only
+        if e[1] == "wfr-head" and evs and evs[-1][1] == "wfr-head" and evs[-1][0] == e[0] and evs[-1][3][1] and e[3][1] and e[3][0] > evs[-1][3][0]:
+            continue
+        evs.append(e)
     k = 0
     while k < len(evs):
         ms, kind, who, payload = evs[k]
@@ -216,11 +222,8 @@ class head_probe:
             v = prev.fget(q)
             f = sys._getframe(1)
             if f.f_code.co_name == "wait_for_response":
-                key = (tr.ms(), id(f), f.f_lasti)
-                # wait_for_response reads head twice per look when something is there: count the first read only
-                if state["last"] is None or state["last"][0] != tr.ms() or state["last"][1] != id(f) or f.f_lasti <= state["last"][2]:
-                    tr.add("wfr-head", None)
-                state["last"] = key
+                # wait_for_response reads head at two places per look (the test, then the unpacking); the bytecode offset tells them apart
+                tr.add("wfr-head", None, (f.f_lasti, v is not None))
             return v
         self.Q.head = property(head)
         return self
@@ -336,6 +339,7 @@ def run(ctx):
     rng = ctx.rng
     n_runs = 12 if ctx.quick else 150
     all_lines = []
+    run_inputs = []
     nontrivial = set()
     for r in range(n_runs):
         fair = r % 4 != 3
@@ -349,6 +353,7 @@ def run(ctx):
             continue
         monitors(ctx, sc, res, fair, inp)
         lines = to_lines(sc, res, fair)
+        run_inputs.append((len(all_lines), inp))
         all_lines += lines
         ctx.count("evaluations", len(res["trace"].ev))
         ctx.hist("callers_per_run", len(sc["callers"]))
@@ -368,7 +373,8 @@ def run(ctx):
         ctx.cov["traces_validated_against_impl"] = n_runs - len(bad_runs)
         ctx.cov["trace_steps_accepted"] = sum(1 for o in out if o == "ok")
         for i, o in rej[:3]:
-            ctx.obligation_broken("correspondence:request-trace-not-accepted-by-model", {"line": all_lines[i], "verdict": o, "context": all_lines[max(0, i - 8):i + 1]})
+            src = [x for off, x in run_inputs if off <= i][-1]
+            ctx.obligation_broken("correspondence:request-trace-not-accepted-by-model", {"line": all_lines[i], "verdict": o, "context": all_lines[max(0, i - 8):i + 1], "scenario": src})
         ctx.sample({"validator_summary": [o for o in out if o.startswith("end")][:3]})
     search_gate(ctx)
     ctx.cov["distinct_nontrivial"] = len(nontrivial)
